@@ -596,6 +596,16 @@ def _real_profile(rnd):
         prof[s + rnd.randrange(6, 20)] = direction * base * 1.25
         prof[s - 24 + rnd.randrange(4, 22)] = direction * max(base * rnd.uniform(1.6, 2.4), mx_prev)
         events.append((m, direction))
+    if rnd.random() < 0.5:
+        # a 30-hour rejection plateau followed directly by a 30-hour extraction plateau: peaks on adjacent days whose (long) pulses overlap
+        m = rnd.randrange(2, 12)
+        s0 = month_start_h(m) + rnd.randrange(5, 20) * 24 + 6
+        top = max(abs(v) for v in prof[month_start_h(m):month_start_h(m + 1)]) + 1.0
+        order = rnd.choice([(-1, 1), (1, -1)])
+        for h in range(30):                     # slowly rising plateaus: the hourly peak is the LAST hour, so the 48 h window sees the whole plateau
+            prof[s0 + h] = order[0] * 1.3 * top * (1.0 + 1e-6 * h)
+            prof[s0 + 30 + h] = order[1] * 1.2 * top * (1.0 + 1e-6 * h)
+        events.append((m, "plateaus"))
     if rnd.random() < 0.4:                                     # a month with no load at all
         m = rnd.randrange(3, 12)
         for h in range(month_start_h(m), month_start_h(m + 1)):
